@@ -216,14 +216,14 @@ CODES = {1: "the real cache contents differ from the model's (at a block boundar
 
 
 def run(ck, binp, seed, tier, viol):
-    n = 600 if tier == "quick" else 12000
+    n = 1600 if tier == "quick" else 20000
     rc, out = sh([binp, "-mode", "elide", "-seed", str(seed), "-n", str(n)], timeout=900)
     lines = [json.loads(l) for l in out.split("\n") if l.startswith("{")]
     mods = {l["module"]: l["wasm"] for l in lines if "module" in l}
     cases = [l for l in lines if "id" in l]
     if rc != 0 or not cases:
         viol("elide-process-fault", {"kind": "process-fault", "stream": "elide"}, {"rc": rc, "tail": out[-3000:]})
-        return 0, 0, {}
+        return 0, 0, {}, []
     dist = {"functions": len(cases), "blocks": 0, "transient_blocks": 0, "loop_headers_with_back_edges": 0, "joins(>=2 preds at init)": 0, "unsealed_at_init": 0,
             "accesses": 0, "checked": 0, "elided": 0, "elided_reusing_address": 0, "elided_recomputing_address": 0, "checked_reusing_address": 0,
             "calls+grows": 0, "facts_inherited_at_block_entry": 0, "features": {}}
@@ -272,4 +272,5 @@ def run(ck, binp, seed, tier, viol):
         viol("elide-differs-from-model", {"kind": "elide-differs-from-model", "code": code},
              {"code": code, "meaning": CODES.get(code), "oracle": why, "body": c.get("body"), "module_wasm": mods.get(c["mod"]), "fn": c["fn"], "coq": items[k], "trace": c["trace"]},
              no_input=not why)
-    return len(cases), len(set(c.get("body") for c in cases)), dist
+    samples = [dict(stream="elide", body=c.get("body"), steps=[(s["blk"], s["kind"], s["v"], s["ceil"], s["checks"], s["addr"]) for s in c["trace"]["steps"] if s["kind"]][:12]) for c in cases[:2] if c.get("trace")]
+    return len(cases), len(set(c.get("body") for c in cases)), dist, samples
